@@ -284,23 +284,26 @@ CLAIMED = {
         technique="Coq proof (per-action invariant + good-value lemma => schedule independence) + threaded differential check",
     ),
     "C15": dict(
-        category="other",
-        text=("Theorems about the line-level Coq model of _intersect_all and the repaired _span_freqs (Props/C15.v, closed under "
-              "the global context, every corpus within the limits, every batch size, phrase and slop): the result has one "
-              "natural-number entry per row; every matching document contains each of the phrase's terms; an exact match "
-              "stays a match PROVIDED the positions of the phrase's terms in the document are pairwise distinct modulo 64 "
-              "(C15_exact_match_kept_partial; e.g. every document of at most 64 tokens). Without that proviso the clause "
-              "is FALSE for the model and for the code (C15_exact_match_refuted): this is KNOWN FINDING D27, reported by "
-              "the check as KNOWN-FINDING (the check attributes a violation to it only when the implementation agrees with "
-              "the faithful model and the stale-bit-clearing variant Span/Span_Variant.v satisfies the clauses on that input; "
-              "anything else is a VIOLATION). The window clause is not proved: it is decided, like all clauses, on every run "
-              "by the extracted clause oracle (Span/Span_Spec.v) on implementation and model over structured near-miss "
-              "corpora. Level `other` because two of the four clauses are not theorems."),
-        design_ref="DESIGN.md 7 (C15), 0 (D21-D27)",
-        note=COMMON_NOTE + "Slop search is documented as experimental; the check found and the repo now repairs six defects "
-             "in it (D16, D21, D22, D24, D25, D26); D27 is recorded, not repaired (known_findings.json). No axioms.",
-        technique="Coq proof for 2.5 clauses (cursor / segment invariants, span-table invariant) + clause oracle and "
-                  "model/impl correspondence for the rest; known finding classified by a variant model",
+        category="proof",
+        text=("All four clauses are theorems about the line-level Coq model of _intersect_all and the repaired _span_freqs "
+              "(Props/C15.v, closed under the global context; every corpus within the limits, every batch size, phrase and "
+              "slop): one natural-number entry per row; every matching document contains each of the phrase's terms; and, "
+              "PARTIAL - under the proviso that the positions of the phrase's terms in the document are pairwise distinct "
+              "modulo 64 (e.g. every document of at most 64 tokens) - an exact match stays a match "
+              "(C15_exact_match_kept_partial) and, for length + slop <= 18, an in-order window of length + slop tokens "
+              "matches (C15_window_match_partial, against the executable oracle). Without the proviso both are FALSE for "
+              "the model and for the code (C15_exact_match_refuted): KNOWN FINDING D27, reported by the check as "
+              "KNOWN-FINDING (a violation is attributed to it only when the implementation agrees with the faithful model "
+              "and the stale-bit-clearing variant Span/Span_Variant.v satisfies the clauses on that input; anything else "
+              "is a VIOLATION). Every clause is also decided on every run by the extracted clause oracle "
+              "(Span/Span_Spec.v) on implementation and model over structured near-miss corpora, as histories of "
+              "several slop values on one index."),
+        design_ref="DESIGN.md 7 (C15), 0 (D21-D27, D32)",
+        note=COMMON_NOTE + "Slop search is documented as experimental; the check found and the repo now repairs seven defects "
+             "in it (D16, D21, D22, D24, D25, D26, D32); D27 is recorded, not repaired (known_findings.json). Phrases of at "
+             "most 64 terms (longer ones are rejected by the repaired code, not modelled). No axioms.",
+        technique="Coq proof (cursor / segment invariants, span-table invariant tracking the copies of the seed span) + clause "
+                  "oracle and model/impl correspondence; known finding classified by a variant model",
     ),
 
     "C19": dict(
